@@ -117,7 +117,10 @@ CHECKS = {
          "replaced only under the policy in force, only matching members are touched, missing parents appear with 0755. The "
          "library's own extraction (lha_reader_extract with header paths) is run under each of its three directory policies and "
          "the resulting tree compared with TreeModel (PLAIN: time stamps of directories that receive children excepted). The "
-         "print command's stdout (banner + exactly the selected members' bytes) is compared with Cli.tla. MacBinary.tla defines "
+         "print command's stdout (banner + exactly the selected members' bytes) is compared with Cli.tla. Exhaustive bindings: every "
+         "sequence of up to 3 (thorough: 4) prompt answers over {y, n, a, s, empty, unrecognised, upper case} on an archive whose files "
+         "all exist already; every wildcard pattern of up to 3 (thorough: 5) characters over {*, ?, a, b} against members named by "
+         "every string of up to 3 characters over {a, b, ?, *} (real matcher = Glob.tla's declarative Match). MacBinary.tla defines "
          "when an envelope is recognised and what is then handed out; single-member MacLHA archives that vary every field of the "
          "envelope (zero fields, name field and padding, fork lengths incl. sums wrapping modulo 2^32, stamps at +-14 h, Mac "
          "dates before 1970, resource-fork-only, 128-byte members, streams shorter than announced) are run through lha p / t / x and "
